@@ -240,6 +240,8 @@ def run_harness(batch: Tuple[str, ...], nworkers: int, prefix: List[int], fine: 
         for name, f, ctx in futures:
             if not f.done():
                 obs["jobs"].append((name, "pending", None))
+            elif f.cancelled():
+                obs["jobs"].append((name, "cancelled", None))
             elif f.exception() is not None:
                 obs["jobs"].append((name, "exception", type(f.exception()).__name__))
             else:
@@ -272,6 +274,8 @@ def judge_factory(batch: Tuple[str, ...]):
             if state == "pending":
                 kind = "failing-job" if st != "ok" else "successful-job"
                 return (f"future-never-completes|{kind}", f"job {i} ({name}): system is quiescent but the Future is not done")
+            if state == "cancelled":
+                return ("future-cancelled", f"job {i} ({name}): its Future was cancelled — the caller gets CancelledError instead of the job's own {'result' if st == 'ok' else 'exception'}")
             if st != "ok":
                 if state != "exception":
                     return ("failing-job-future-has-result", f"job {i} ({name}) raises {err} when run directly but its Future holds a result {val}")
